@@ -362,6 +362,13 @@ class Run:
         name, mis = file_name(info.fmt, namev, self.nop)
         if how == "stream":
             return io.BytesIO(info.blob), (lambda: None), False
+        if how == "stream-reused":
+            # one stream object per image, handed to the library again and again (the library rewinds it; it is the
+            # caller's object and stays open)
+            if not hasattr(self, "_streams"):
+                self._streams = {}
+            st_ = self._streams.setdefault(info.blob, io.BytesIO(info.blob))
+            return st_, (lambda: None), False
         if how == "stream-peeked":
             # the caller looked at the stream first (read the signature, asked an imaging library for the size):
             # the cursor is not at the start; the library rewinds a stream before reading it
@@ -902,7 +909,8 @@ def strategies():
                     st.sampled_from(IMG.FORMATS).flatmap(img_for),
                     st.sampled_from(IMG.FORMATS).flatmap(img_for),
                     st.fixed_dictionaries({"start": st.integers(0, 3)}))
-    how = st.sampled_from(["path", "stream", "file", "samepath", "samepath", "stream-peeked"])
+    how = st.sampled_from(["path", "stream", "file", "samepath", "samepath", "stream-peeked", "stream-reused",
+                           "stream-reused"])
     namev = st.integers(0, 4)
     emu = st.one_of(st.sampled_from([1, 2, 7, 12700, 914400, 1000000, 9144000, 51206400]),
                     st.integers(1, 20000000))
